@@ -136,6 +136,39 @@ def _normalise(tree):
     remaining nodes are untouched."""
     def void(st) -> bool:
         return isinstance(st, ast.Pass) or (isinstance(st, ast.Expr) and isinstance(st.value, ast.Constant) and st.value.value is Ellipsis)
+    # == / != are symmetric: the constant-like operand goes to the right, a plain name to the right of a compound expression
+    def rank(e) -> int:
+        if isinstance(e, ast.Constant) or (isinstance(e, ast.UnaryOp) and isinstance(e.operand, ast.Constant)):
+            return 3
+        d = dotted(e)
+        if d is not None and d.split(".")[-1].isupper():
+            return 2
+        if isinstance(e, ast.Name):
+            return 1
+        return 0
+    for node in ast.walk(tree):
+        if isinstance(node, ast.Compare) and len(node.ops) == 1 and isinstance(node.ops[0], (ast.Eq, ast.NotEq)) \
+                and rank(node.left) > rank(node.comparators[0]):
+            node.left, node.comparators[0] = node.comparators[0], node.left
+    # list() / dict() / tuple() without arguments are the empty literals
+    class _Empty(ast.NodeTransformer):
+        def visit_Call(self, n):
+            self.generic_visit(n)
+            if isinstance(n.func, ast.Name) and not n.args and not n.keywords:
+                if n.func.id == "list":
+                    return ast.copy_location(ast.List(elts=[], ctx=ast.Load()), n)
+                if n.func.id == "dict":
+                    return ast.copy_location(ast.Dict(keys=[], values=[]), n)
+                if n.func.id == "tuple":
+                    return ast.copy_location(ast.Tuple(elts=[], ctx=ast.Load()), n)
+            return n
+    tree = _Empty().visit(tree)
+    ast.fix_missing_locations(tree)
+    # `if not c: A else: B` (B not an elif chain) is `if c: B else: A`: one polarity only, so that rules need not know both
+    for node in ast.walk(tree):
+        if isinstance(node, ast.If) and node.orelse and isinstance(node.test, ast.UnaryOp) and isinstance(node.test.op, ast.Not) \
+                and not (len(node.orelse) == 1 and isinstance(node.orelse[0], ast.If)):
+            node.test, node.body, node.orelse = node.test.operand, node.orelse, node.body
     for node in ast.walk(tree):
         for fld in ("body", "orelse", "finalbody"):
             b = getattr(node, fld, None)
